@@ -32,50 +32,85 @@ def load_known():
     return []
 
 
-def generate(prop):
-    """symbolic execution of every function of the property -> (jobs, infos, problems, engines)"""
-    by_side = {}
-    for side, fn in registry.FUNCTIONS.get(prop, []):
-        by_side.setdefault(side, []).append(fn)
-    obs, infos, problems, assumptions, ledgers = [], [], [], [], {}
-    for side, fns in by_side.items():
+class Ob:
+    """picklable summary of an obligation"""
+    __slots__ = ('oid', 'function', 'kind', 'text', 'path', 'line', 'status', 'backend', 'time', 'detail')
+
+    def __init__(self, ob):
+        for k in self.__slots__:
+            setattr(self, k, getattr(ob, k))
+
+
+def gen_one(task):
+    side, fn = task
+    out = {'fn': fn, 'side': side, 'obs': [], 'info': None, 'problem': None, 'assumptions': [], 'ledger': {},
+           'trusted': []}
+    t0 = time.time()
+    try:
         E = Engine(REPO_SRC)
         E.jobs = 1
-        try:
-            E.load_sidecar(os.path.join(HERE, 'contracts', side + '.py'))
-        except Exception as e:
-            problems.append((3, 'sidecar %s failed to load: %r' % (side, e)))
-            continue
-        for ob in E.lemma_obligations:
-            ob.function = 'lemma(%s)' % side
-            obs.append((ob, None))
-        for fn in fns:
-            t0 = time.time()
-            try:
-                E.obligations = []
-                # generation only: discharge later in one pool
-                saved = E.timeout_ms
-                fobs = E.verify_generate(fn)
-                ax = E.all_axioms()
-                for ob in fobs:
-                    obs.append((ob, None if ob.status is not None else smtlib_of(ax, ob.hyps, ob.goal)))
-                info = E.function_info(fn)
-                info.update(paths=E.last_paths, obligations=len(fobs), gen_s=round(time.time() - t0, 2),
-                            trusted=False)
-                infos.append(info)
-            except ContractError as e:
-                problems.append((2, '%s: %s' % (fn, e)))
-            except Unsupported as e:
-                problems.append((3, '%s: unsupported construct: %s' % (fn, e)))
-            except Exception as e:
-                problems.append((3, '%s: internal error: %r\n%s' % (fn, e, traceback.format_exc())))
-        for key, c in E.contracts.items():
-            if c.trusted and key not in [i['function'] for i in infos]:
-                assumptions.append("assumed contract (body not verified here): %s" % key)
-        assumptions += E.assumptions
-        for fn, led in E.ledger.items():
-            ledgers[fn] = {'interpreted_nodes': sorted(led['interpreted']),
-                           'abstraction_rules': ['line %s: %s  =>  %s' % r for r in led['rules']]}
+        E.load_sidecar(os.path.join(HERE, 'contracts', side + '.py'))
+    except Exception as e:
+        out['problem'] = (3, 'sidecar %s failed to load: %r' % (side, e))
+        return out
+    try:
+        if fn is None:            # the lemmas of the vocabulary (proved when the sidecar loads)
+            for ob in E.lemma_obligations:
+                ob.function = 'lemma(%s)' % side
+                out['obs'].append((Ob(ob), None))
+            return out
+        fobs = E.verify_generate(fn)
+        ax = E.all_axioms()
+        for ob in fobs:
+            out['obs'].append((Ob(ob), None if ob.status is not None else smtlib_of(ax, ob.hyps, ob.goal)))
+        info = E.function_info(fn)
+        info.update(paths=E.last_paths, merged_paths=E.stats.get('merged', 0), obligations=len(fobs),
+                    gen_s=round(time.time() - t0, 2))
+        out['info'] = info
+    except ContractError as e:
+        out['problem'] = (2, '%s: %s' % (fn, e))
+    except Unsupported as e:
+        out['problem'] = (3, '%s: unsupported construct: %s' % (fn, e))
+    except Exception as e:
+        out['problem'] = (3, '%s: internal error: %r\n%s' % (fn, e, traceback.format_exc()[-1500:]))
+    out['trusted'] = [k for k, c in E.contracts.items() if c.trusted]
+    out['assumptions'] = list(E.assumptions)
+    led = E.ledger.get(fn)
+    if led:
+        out['ledger'] = {fn: {'interpreted_nodes': sorted(led['interpreted']),
+                              'abstraction_rules': ['line %s: %s  =>  %s' % r for r in led['rules']]}}
+    return out
+
+
+def generate(prop):
+    """symbolic execution of every function of the property (one process each)"""
+    tasks = list(registry.FUNCTIONS.get(prop, []))
+    sides = []
+    for side, _ in tasks:
+        if side not in sides:
+            sides.append(side)
+    tasks = [(side, None) for side in sides] + tasks
+    with multiprocessing.get_context('fork').Pool(min(16, max(1, len(tasks)))) as pool:
+        res = pool.map(gen_one, tasks, chunksize=1)
+    obs, infos, problems, assumptions, ledgers = [], [], [], [], {}
+    verified = [fn for _, fn in tasks if fn]
+    seen_lemmas = set()
+    for r in res:
+        for ob, txt in r['obs']:
+            if ob.kind == 'lemma':
+                if ob.oid in seen_lemmas:
+                    continue
+                seen_lemmas.add(ob.oid)
+            obs.append((ob, txt))
+        if r['info']:
+            infos.append(r['info'])
+        if r['problem']:
+            problems.append(r['problem'])
+        assumptions += r['assumptions']
+        for k in r['trusted']:
+            if k not in verified:
+                assumptions.append("assumed contract (body verified in another check or trusted): %s" % k)
+        ledgers.update(r['ledger'])
     return obs, infos, problems, sorted(set(assumptions)), ledgers
 
 
